@@ -123,6 +123,14 @@ class ClassInfo:
     def qualname(self) -> str:
         return f'{self.module.short}.{self.name}'
 
+    @property
+    def vmethods(self) -> Dict[str, FuncInfo]:
+        """The methods as the rules should read them: their analysis views (private helpers inlined, aliases read through)."""
+        prog = getattr(self.module, 'prog', None)
+        if prog is None:
+            return self.methods
+        return {k: prog.view(f) for k, f in self.methods.items()}
+
     def mro(self) -> List[Union['ClassInfo', str]]:
         if self._mro is None:
             self._mro = _c3(self)
@@ -250,9 +258,9 @@ class Program:
         # private names that were consistently renamed are renamed back (alpha.py): the checkers name the members they reason about
         from . import alpha
         trees = {k: m.tree for k, m in self.modules.items()}
-        self.alpha_map: Dict[str, str] = alpha.renaming(trees)
-        alpha.apply(trees, self.alpha_map)
+        self.alpha_map: Dict[str, str] = alpha.rename_back(trees)
         for m in self.modules.values():
+            m.prog = self  # type: ignore[attr-defined]
             self._index_module(m)
         for m in self.modules.values():
             for c in m.classes.values():
@@ -658,7 +666,7 @@ def calls_in(node: ast.AST, skip_nested_defs: bool = True) -> Iterator[ast.Call]
 
 def walk_shallow(node: ast.AST) -> Iterator[ast.AST]:
     """ast.walk that does not descend into nested function/class definitions or lambdas."""
-    stack = [node]
+    stack = [node] if node is not None else []
     first = True
     while stack:
         n = stack.pop()
